@@ -758,6 +758,51 @@ func (p *pkg) analyseRun(m *method, run *ast.FuncDecl) {
 		seen["origin"] = true
 		m.originSinks = append(m.originSinks, "<expression>")
 	}
+	// the helpers of the package that Run reaches (two levels of calls): any use of the transaction origin there
+	// is an identity the method acts on as well
+	visited := map[string]bool{}
+	frontier := []ast.Node{run.Body}
+	for depth := 0; depth < 3; depth++ {
+		var next []ast.Node
+		for _, body := range frontier {
+			ast.Inspect(body, func(n ast.Node) bool {
+				c, ok := n.(*ast.CallExpr)
+				if !ok {
+					return true
+				}
+				_, name := calleeName(c)
+				fds := p.funcs[name]
+				if len(fds) != 1 || visited[name] || fds[0] == run || name == "Run" {
+					return true
+				}
+				visited[name] = true
+				h := fds[0]
+				if h.Body == nil {
+					return true
+				}
+				next = append(next, h.Body)
+				ast.Inspect(h.Body, func(x ast.Node) bool {
+					switch y := x.(type) {
+					case *ast.SelectorExpr:
+						if y.Sel.Name == "Origin" {
+							seen["origin"] = true
+							m.originSinks = append(m.originSinks, "<helper "+name+">")
+						}
+						if y.Sel.Name == "CallerAddress" {
+							seen["caller"] = true
+						}
+					case *ast.CallExpr:
+						if se, ok := y.Fun.(*ast.SelectorExpr); ok && se.Sel.Name == "Caller" && len(y.Args) == 0 {
+							seen["caller"] = true
+						}
+					}
+					return true
+				})
+				return true
+			})
+		}
+		frontier = next
+	}
 	for k := range seen {
 		m.callerIDs = append(m.callerIDs, k)
 	}
@@ -1060,7 +1105,7 @@ func main() {
 	sb.WriteString("Inductive step := SRead | SWrite | SNestedDB | SScratch | SLog | SEvmCall | SEvmStatic | SAlt (a b : list step).\n")
 	sb.WriteString("Inductive guard := GInputLen | GLookup | GReadonly | GDisabled | GDispatch.\n")
 	sb.WriteString("Inductive callkind := CALL | CALLCODE | DELEGATECALL | STATICCALL.\n\n")
-	sb.WriteString("Record pmethod := mk_pmethod {\n  pm_contract : pc_contract;\n  pm_name : string;          (* ABI method name *)\n  pm_selector : string;      (* 4-byte method id, hex (from the ABI in contract/I*.go) *)\n  pm_gotype : string;\n  pm_readonly : bool;        (* IsReadonly() *)\n  pm_gas : Z;                (* RequiredGas() *)\n  pm_actions : Z;            (* ExecuteNativeAction calls in Run *)\n  pm_outer_ctx : bool;       (* Run obtains the live context outside the action closure *)\n  pm_steps : list step;\n  pm_identities : list string;  (* \"caller\" = contract.Caller(), \"origin\" = evm.Origin *)\n  pm_origin_sinks : list string; (* functions that receive evm.Origin *)\n  pm_value : bool;           (* reads contract.Value() *)\n  pm_defers : bool           (* Run contains a defer statement or calls recover() *)\n}.\n\n")
+	sb.WriteString("Record pmethod := mk_pmethod {\n  pm_contract : pc_contract;\n  pm_name : string;          (* ABI method name *)\n  pm_selector : string;      (* 4-byte method id, hex (from the ABI in contract/I*.go) *)\n  pm_gotype : string;\n  pm_readonly : bool;        (* IsReadonly() *)\n  pm_gas : Z;                (* RequiredGas() *)\n  pm_actions : Z;            (* ExecuteNativeAction calls in Run *)\n  pm_outer_ctx : bool;       (* Run obtains the live context outside the action closure *)\n  pm_steps : list step;\n  pm_identities : list string;  (* \"caller\" = contract.Caller(), \"origin\" = evm.Origin; Run and the package helpers it reaches (2 levels) *)\n  pm_origin_sinks : list string; (* functions that receive evm.Origin; \"<helper f>\" = f mentions .Origin *)\n  pm_value : bool;           (* reads contract.Value() *)\n  pm_defers : bool           (* Run contains a defer statement or calls recover() *)\n}.\n\n")
 	sb.WriteString("Definition methods : list pmethod := [\n")
 	first := true
 	sels := map[string]map[string]string{
